@@ -263,6 +263,29 @@ pub fn run(ctx: &Ctx, st: &mut Stats) {
         st.eval_hist(mix(a.hash(a.k as u64 + 9), b.hash(b.k as u64 + 11)), vec![a, b, a], check);
         let _ = i;
     });
+    let np = ctx.tier.pick(300, 600_000, 6_000_000);
+    ctx.par(st, "history: other operations on related dates (primers: base and target month), then the judged case; also A,A", false, 0, np, |st, i, rng| {
+        let base = rng.range_i64(TS_MIN, TS_MAX);
+        let k = if rng.chance(3, 4) { rng.range_i64(-40, 40) } else { rng.range_i64(-1300, 1300) };
+        let n = base.div_euclid(DAY_US);
+        let c = match rng.below(6) {
+            0 => C::ab(K::DateYm, n, k),
+            1 => C::ab(K::TsYm, base, k),
+            2 => C::ab(K::OraYm, base - base.rem_euclid(1_000_000), k),
+            3 => C::ab(K::DateLdom, n, 0),
+            4 => C::ab(K::TsLdom, base, 0),
+            _ => C::ab(K::OraLdom, base - base.rem_euclid(1_000_000), 0),
+        };
+        // anchors: the base date, and a date in the month the offset lands in
+        let target = (n + k * 30).clamp(MIN_DAY as i64, MAX_DAY as i64);
+        let exact = model(n as i32, k).unwrap_or(target);
+        if i % 8 == 0 {
+            st.eval_hist(mix(c.hash(c.k as u64 + 21), 0xAA), vec![c, c], check);
+        } else {
+            let pr = crate::primers::gen_some(rng, &[n, exact, target], base.rem_euclid(DAY_US), &[k]);
+            st.eval_primed(mix(c.hash(c.k as u64 + 22), i as u64), pr, c, check);
+        }
+    });
     cold_threads(st, "history: first call on a fresh thread", cold_list(), check);
     // seeded random (timestamp, offset)
     let n = ctx.tier.pick(1_000, 1_000_000, ctx.big(20_000_000, 200_000_000));
